@@ -645,6 +645,38 @@ def unwind_pauses(R, ro, rule):
                     if k_ == "truth" and isinstance(s_, str) and s_.endswith(".running") and s_.split(".")[0] in aliases:
                         return "F" if pos_ else "T"
                     return None
+                # ... and the pause is reached exactly for the entries that are tasks (the stack also holds batch items and plain
+                # futures) and are not computed yet
+                def is_task(nd, aliases=aliases):
+                    if nd.kind != "test":
+                        return None
+                    k_, s_, pos_ = q.atom_test(nd.ast)
+                    if k_ == "isinstance" and s_[0] in aliases and s_[1].split(".")[-1] == "AsyncTask":
+                        return "T" if pos_ else "F"
+                    return None
+                pt = kit.path_avoiding_guard(cfg, cn, is_task, N)
+                R.check(pt is None, rule, d.qualname + ":tasks-only:" + str(lower), R.site(d, c),
+                        "only entries that are AsyncTasks are paused", "a stack entry that is not an AsyncTask (a batch item, a plain future) can reach _pause_contexts(): "
+                        "the unwinding itself fails and replaces the original exception", cfg.fmt_path(pt) if pt else None)
+                head_starts = [e.dst for e in cfg.out_edges(n.id, N) if e.label == "iter"]
+
+                def wrong_side(e, aliases=aliases):
+                    nd = cfg.nodes[e.src]
+                    if nd.kind != "test":
+                        return False
+                    k_, s_, pos_ = q.atom_test(nd.ast)
+                    if k_ == "isinstance" and s_[0] in aliases and s_[1].split(".")[-1] == "AsyncTask":
+                        return e.label == ("F" if pos_ else "T")
+                    if k_ == "call" and isinstance(s_, str) and s_.endswith(".is_computed") and s_.split(".")[0] in aliases:
+                        return e.label == ("T" if pos_ else "F")
+                    if k_ == "truth" and isinstance(s_, str) and s_.endswith(".running") and s_.split(".")[0] in aliases:
+                        return e.label == ("T" if pos_ else "F")
+                    return False
+                pl = cfg.find_path(head_starts, cn, N, keep_edge=lambda e: not wrong_side(e))
+                R.check(pl is not None, rule, d.qualname + ":reaches:" + str(lower), R.site(d, c),
+                        "an uncomputed, suspended AsyncTask among the dropped entries does get its contexts paused",
+                        "the pause of a dropped task's contexts is only reachable for entries that are not tasks, are computed or are running: the tasks it is "
+                        "meant for keep their contexts resumed")
                 pr = kit.path_avoiding_guard(cfg, cn, not_running, N)
                 R.check(pr is None, rule, d.qualname + ":not-running:" + str(lower), R.site(d, c),
                         "a task that is executing at that moment keeps its contexts",
